@@ -75,14 +75,6 @@ var C06Stat *Stat
 
 func init() {
 	logx.Disable()
-	// kit reads VERIF_KNOWN; the driver pins it to /verif/known_findings.txt,
-	// so a private list is passed through VERIF_KNOWN_C06 (or picked up from
-	// /verif/.work/C06-known.txt when present).
-	if p := os.Getenv("VERIF_KNOWN_C06"); p != "" {
-		os.Setenv("VERIF_KNOWN", p)
-	} else if _, err := os.Stat("/verif/.work/C06-known.txt"); err == nil {
-		os.Setenv("VERIF_KNOWN", "/verif/.work/C06-known.txt")
-	}
 	C06Stat = NewStat("c06")
 	// The position of a node on the cluster's hash ring is a function of its
 	// address, so the ports are a function of the shard: a replay (shard 0)
@@ -263,6 +255,27 @@ func (s *C06Srv) Reset(prefixes ...string) {
 	s.mu.Lock()
 	s.mode, s.filt, s.log, s.injected, s.prefixes = "", "", nil, 0, prefixes
 	s.mu.Unlock()
+}
+
+var (
+	c06PoisonMu sync.Mutex
+	c06Poison   = map[int]int64{} // salt -> real time of a stalled case that used it
+)
+
+// C06Poison records that a case with this salt stalled in real time: one of
+// its commands may still arrive late at a server.
+func C06Poison(salt int) {
+	c06PoisonMu.Lock()
+	c06Poison[salt] = C06RealNow()
+	c06PoisonMu.Unlock()
+}
+
+// C06Poisoned: a case with the same key names stalled less than 30 s ago.
+func C06Poisoned(salt int) bool {
+	c06PoisonMu.Lock()
+	defer c06PoisonMu.Unlock()
+	t, ok := c06Poison[salt]
+	return ok && C06RealNow()-t < 30e9
 }
 
 // C06RealNow is the wall clock in nanoseconds even inside a bubble (where
